@@ -18,7 +18,7 @@ import (
 func init() {
 	fw.Register(&fw.Prop{
 		ID: "C07",
-		Rule: "(seed, message) pairs: seeds random / all-zero / all-0xff / single-bit; messages of every length 0..300 (both SHA-512 padding regimes of prefix||M and R||A||M) and 1..64 KiB. For each pair the monitor compares NewKeyFromSeed, Public, Seed, Sign (twice), PrivateKey.Sign(Hash(0)), GenerateKey(reader) byte for byte with crypto/ed25519 and with the big-integer RFC 8032 signer, checks Verify accepts, pre-hashed options are refused and short readers fail. " +
+		Rule: "(seed, message) pairs: seeds random / all-zero / all-0xff / single-bit; messages of every length 0..2400 (both SHA-512 padding regimes of prefix||M and R||A||M, and beyond any plausible fixed-size buffer), lengths around 2^10..2^17, and random 1..64 KiB. For each pair the monitor compares NewKeyFromSeed, Public, Seed, Sign (twice), PrivateKey.Sign(Hash(0)), GenerateKey(reader) byte for byte with crypto/ed25519 and with the big-integer RFC 8032 signer, checks Verify accepts, pre-hashed options are refused and short readers fail. " +
 			"Non-trivial: distinct (seed, len(msg)) pairs (all cases).",
 		Assumptions: []string{"crypto/ed25519 and SHA-512 of the Go standard library", "the RFC 8032 model in harness/oracle/ed (self-tested against RFC 8032 vectors)"},
 		SelfTest:    ed.SelfTest,
@@ -183,6 +183,21 @@ func gen(g *fw.Gen) {
 	}
 	for n := g.ShareOf(100, 3000); n > 0; n-- {
 		g.Emit("sign", fw.Pack(seeds(), g.Bytes(1024+g.Rng.Intn(64*1024))))
+	}
+	// dense sweep of message lengths beyond any plausible fixed-size buffer, and around powers of two
+	for l := 301; l <= g.Pick(2400, 9000); l++ {
+		i++
+		if g.Own(i) {
+			g.Emit("sign", fw.Pack(seeds(), g.Bytes(l)))
+		}
+	}
+	for k := 10; k <= 17; k++ {
+		for d := -70; d <= 70; d++ {
+			i++
+			if g.Own(i) && (d >= -2 && d <= 2 || d%8 == 0 || !g.Quick()) {
+				g.Emit("sign", fw.Pack(seeds(), g.Bytes(1<<uint(k)+d)))
+			}
+		}
 	}
 	for l := 0; l < 32; l++ {
 		if g.Own(l) {
